@@ -1,4 +1,5 @@
 from .. import common
+from .. import replay as _replay
 
 MANIFEST = {
     "text": "Lean 4 theorems over a byte-level model of x/jsonrpc2 frame.go (headerReader.Read incl. ReadString, strings.TrimSpace with Unicode spaces, "
@@ -29,3 +30,8 @@ def run(ctx):
         "int64(float64) for out-of-range values as on amd64 (only MaxInt64 is affected)",
     ]
     common.standard(ctx, "GopModel.Props.C38", "c38", 1500, 50000, RULE, driver="drv_pureb")
+
+
+def replay(ctx, obj):
+    ctx.driver_exe = "drv_pureb"
+    return _replay.generic(ctx, obj)
